@@ -2756,3 +2756,113 @@ func ruleR73(c *Ctx) {
 		})
 	}
 }
+
+// ---- R74: no swallowed errors beyond the confirmed table ----
+
+func init() {
+	register(&Rule{ID: "R74", Title: "error discipline: an error returned to engine code is propagated, traced or handled; the sites that deliberately drop one are an explicit table, one reason each", Min: 150, Run: ruleR74})
+}
+
+// acceptedDrops: enclosing function -> callee -> reason (each confirmed by reading the code).
+var acceptedDrops = map[string]map[string]string{
+	"bpmn.FetchTaskTimeout":            {"ParseDuration": "a malformed timeout attribute means 'no timeout' (0), the documented default"},
+	"pkg/clock.changeMonitor":          {"Close": "closing the timerfd on the way out; nothing to do about a failure"},
+	"pkg/clock.(*host).changeMonitor":  {"Close": "closing the timerfd on the way out; nothing to do about a failure"},
+	"bpmn.(*ProcessSet).tracerProcess": {"ConsumeEvent": "the outcome of delivering a thrown event to a sibling process is visible in that process's traces"},
+	"bpmn.(*ProcessSet).triggerCatch":  {"ConsumeEvent": "as tracerProcess"},
+	"schema.(*Value).ValueFor": {"Unmarshal": "an undecodable stored text yields the empty container (R67 requires it to be non-nil)",
+		"ParseInt": "the text was validated when it was stored (ValueFrom only stores text that parses)", "ParseFloat": "the text was validated when it was stored (ValueFrom only stores text that parses)"},
+	"schema.(*TaskDefinition).GetMetadatas": {"Unmarshal": "an undecodable metadata attribute yields the empty map"},
+	"schema.(*TaskDefinition).SetMetadata": {"Unmarshal": "as GetMetadatas: undecodable existing metadata is replaced",
+		"Marshal": "setter without an error result; metadata values are JSON-representable by contract"},
+	"schema.(*TaskDefinition).SetMetadatas": {"Marshal": "setter without an error result; metadata values are JSON-representable by contract"},
+	"pkg/logic.NewCatchEventSatisfier":      {"NewEventDefinitionInstance": "KNOWN FINDING Rerr: listed there, not accepted here"},
+	"pkg/logic.NewThrowEventSatisfier":      {"NewEventDefinitionInstance": "KNOWN FINDING Rerr: listed there, not accepted here"},
+}
+
+func ruleR74(c *Ctx) {
+	p := c.P
+	what := "an error that a callee reports must not vanish: it is returned, sent as an ErrorTrace, or handled; a result assigned to `_` (or a call used as a statement) hides a failed step, and the code goes on with a zero value"
+	errT := types.Universe.Lookup("error").Type()
+	for _, f := range p.Funcs {
+		if f.Body == nil || !(isTargetPkg(p, f.Pkg.PkgPath) || strings.HasSuffix(f.Pkg.PkgPath, "/schema")) {
+			continue
+		}
+		if strings.Contains(p.Pos(f.Body.Pos()), "_generated") {
+			continue
+		}
+		in := info(f)
+		ast.Inspect(f.Body, func(n ast.Node) bool {
+			if _, isLit := n.(*ast.FuncLit); isLit && n != ast.Node(f.Lit) {
+				return false
+			}
+			var call *ast.CallExpr
+			dropped := false
+			switch x := n.(type) {
+			case *ast.ExprStmt:
+				if cl, ok := unparen(x.X).(*ast.CallExpr); ok {
+					call, dropped = cl, true
+				}
+			case *ast.AssignStmt:
+				if len(x.Rhs) == 1 {
+					if cl, ok := unparen(x.Rhs[0]).(*ast.CallExpr); ok {
+						call = cl
+						if t, ok := in.TypeOf(cl).(*types.Tuple); ok {
+							if t.Len() == len(x.Lhs) && t.Len() > 0 && types.Identical(t.At(t.Len()-1).Type(), errT) {
+								if id, ok := x.Lhs[len(x.Lhs)-1].(*ast.Ident); ok && id.Name == "_" {
+									dropped = true
+								}
+							}
+						} else if len(x.Lhs) == 1 && in.TypeOf(cl) != nil && types.Identical(in.TypeOf(cl), errT) {
+							if id, ok := x.Lhs[0].(*ast.Ident); ok && id.Name == "_" {
+								dropped = true
+							}
+						}
+					}
+				}
+			}
+			if call == nil {
+				return true
+			}
+			// does the callee return an error at all?
+			rt := in.TypeOf(call)
+			hasErr := false
+			switch t := rt.(type) {
+			case *types.Tuple:
+				hasErr = t.Len() > 0 && types.Identical(t.At(t.Len()-1).Type(), errT)
+			default:
+				hasErr = rt != nil && types.Identical(rt, errT)
+			}
+			if !hasErr {
+				return true
+			}
+			fn := callee(in, call)
+			name := "call"
+			if fn != nil {
+				name = fn.Name()
+			}
+			// formatted printing to a writer / hash / builder and deferred-style closes are not the engine's errors
+			if fn != nil && fn.Pkg() != nil {
+				switch fn.Pkg().Path() {
+				case "fmt", "strings", "bytes", "hash", "io":
+					return true
+				}
+			}
+			root := f.Root().QName()
+			if !dropped {
+				c.Ok(f, call, "error of "+name, what, "the error result is bound to a variable", false)
+				return true
+			}
+			reason, ok := acceptedDrops[root][name]
+			if ok && !strings.HasPrefix(reason, "KNOWN FINDING") {
+				c.Ok(f, call, "dropped error of "+name, what, "accepted: "+reason, true)
+			} else if ok {
+				// reported by Rerr; do not report the same construct twice
+				c.Ok(f, call, "dropped error of "+name, what, "reported by rule Rerr (known finding)", false)
+			} else {
+				c.Bad(f, call, "dropped error of "+name, what, "the error result of "+name+" is discarded in "+root+" and this site is not in the table of confirmed deliberate drops")
+			}
+			return true
+		})
+	}
+}
